@@ -313,7 +313,8 @@ def run_check(pid, tier, seed, replay=None):
         wall = time.time() - t0
         if timed_out:
             notes.append("time budget hit: inconclusive for the shards that were stopped")
-        write_evidence(pid, cfg, tier, seed, ev, wall, len(viols), shards, notes)
+        if not replay:  # a replay of one saved case is not a run of the check: the evidence file stays
+            write_evidence(pid, cfg, tier, seed, ev, wall, len(viols), shards, notes)
         kf = load_kf()
         for kid, n in sorted(ev["kf_seen"].items()):
             what = kf.get(kid, {}).get("what_fails") or ev["kf_what"].get(kid, "")
